@@ -42,6 +42,8 @@ class C18(Prop):
             case = {"id": i, "kind": kind, "args": [r.choice(ARGS) for _ in range(r.randint(0, 4))],
                     "grouped": mode == "group" or (mode == "session" and r.random() < 0.5), "session": mode == "session",
                     "sigmask": r.random() < 0.3, "hook": r.random() < 0.6, "mark": r.choice(["m", "x y", "é", ""])}
+            # how the reported child came to be spawned: by start(), or as the replacement of a restart of every flavour
+            case["path"] = "start" if r.random() < 0.75 else r.choice(["restart", "try_restart", "restart_with_signal", "try_restart_with_signal"])
             if kind == "shell":
                 case["options"] = [r.choice(ARGS[1:]) for _ in range(r.randint(0, 3))]
                 case["progopt"] = r.choice([None, "-c", "/C", "--command"])
@@ -102,6 +104,7 @@ class C18(Prop):
             c.evaluations += 1
             rep = o["report"]
             c.count(case["kind"])
+            c.count("spawned-by=" + case["path"])
             if not rep:
                 c.disagreements.append({"case": case, "impl": o, "model": res[i], "what": "child did not report (spawn hook env not visible?)"})
                 c.failing.append({"case": case, "impl": o, "clause": "C18: environment set by the spawn hook not visible to the child (no report)"})
